@@ -23,6 +23,7 @@ type RecEvent struct {
 	Step      int    // scheduler step at entry
 	Task      int
 	Mutated   bool // event changed between Append entry and exit (recycled while held)
+	Done      int  // scheduler step at which the appender call returned (0 = still inside)
 }
 
 // RecWrite is a raw Write received by a recording appender.
@@ -30,6 +31,7 @@ type RecWrite struct {
 	Data []byte
 	Step int
 	Task int
+	Done int
 }
 
 // Item is either an event or a raw write, in arrival order.
@@ -246,6 +248,10 @@ func (a *RecAppender) Append(e *log.Event) {
 		r.Items[idx].Ev.Mutated = true
 		r.mu.Unlock()
 	}
+	d, _ := stepTask()
+	r.mu.Lock()
+	r.Items[idx].Ev.Done = d
+	r.mu.Unlock()
 	r.release()
 }
 
@@ -256,8 +262,13 @@ func (a *RecAppender) Write(b []byte) {
 	w.Step, w.Task = stepTask()
 	r.mu.Lock()
 	r.Items = append(r.Items, Item{Wr: &w})
+	idx := len(r.Items) - 1
 	r.mu.Unlock()
 	r.hold()
+	d, _ := stepTask()
+	r.mu.Lock()
+	r.Items[idx].Wr.Done = d
+	r.mu.Unlock()
 	r.release()
 }
 
@@ -270,4 +281,11 @@ func (it Item) String() string {
 		return fmt.Sprintf("ev{%s %s %s}", it.Ev.LevelName, it.Ev.Tag, short(it.Ev.Fields, 60))
 	}
 	return fmt.Sprintf("wr{%q}", short(string(it.Wr.Data), 60))
+}
+
+// InFlightCount is the number of appender calls currently inside this recorder.
+func (r *Rec) InFlightCount() int {
+	r.mu.Lock()
+	defer r.mu.Unlock()
+	return r.InFlight
 }
